@@ -55,6 +55,9 @@ func body10p(s scn, m cancelMode, readTimeout time.Duration, stall bool, silentA
 		if silentAfter > 0 {
 			name += "-silent"
 		}
+		if silentAfter < 0 {
+			name += "-chatty"
+		}
 		opt := s.opt
 		opt.ReadTimeout = readTimeout
 		rt := readTimeout
@@ -64,6 +67,11 @@ func body10p(s scn, m cancelMode, readTimeout time.Duration, stall bool, silentA
 		c, err := Connect(opt, baseHello)
 		if err != nil {
 			return Outcome{Key: name + "/handshake-failed", Detail: err.Error()}
+		}
+		if silentAfter < 0 {
+			// runs after the Close below: gives the chattering peer the second it needs to
+			// wake up, find the connection closed and leave
+			defer vsched.Quiet(func() { simnet.Gap(2 * time.Second) })
 		}
 		defer vsched.Quiet(func() { _ = c.C.Close() })
 		if msg := c.Prelude(prelude); msg != "" {
@@ -77,11 +85,19 @@ func body10p(s scn, m cancelMode, readTimeout time.Duration, stall bool, silentA
 		if silentAfter > 0 && silentAfter < len(steps) {
 			steps = steps[:silentAfter]
 		}
+		if silentAfter < 0 {
+			// a chatty server: after -silentAfter steps it reports progress once a second (well
+			// inside the read timeout) for two minutes and never ends the stream
+			steps = steps[:-silentAfter]
+			for i := 0; i < 120; i++ {
+				steps = append(steps, Step{Name: "chatter", Send: c.W.Progress(refwire.Progress{Rows: 1, Bytes: 8}), Gap: time.Second})
+			}
+		}
 		total := 0
 		for _, st := range steps {
 			total += len(st.Send)
 		}
-		if silentAfter > 0 {
+		if silentAfter != 0 {
 			total++ // the stream never ends: nothing counts as completely consumed
 		}
 		c.RunPeer("peer", c.HsLen, steps, nil)
@@ -300,7 +316,7 @@ func bodyHandshakeCancel(m cancelMode, helloAfter time.Duration, readTimeout tim
 
 // C10 — cancellation ends the query promptly, sends Cancel and closes the connection.
 func C10(c *vk.Ctx) {
-	c.Rule("scenarios {select, insert, streamed insert, LZ4 select, select with telemetry, insert with stalled writes, select and insert during which the server falls silent, select and insert (also with a silent server) on a client whose previous query ended with a server exception or ended well, handshake with prompt / late / no hello} x {explicit cancel() from a canceller thread placed by the scheduler at every point of every other thread, context deadline at fake 1 s and 5 s, explicit cancel of a context that also carries a 1 h deadline} x read timeout {3 s, 100 ms} x all schedules (incl. clock steps) up to the deviation bound. distinct_nontrivial = executions.")
+	c.Rule("scenarios {select, insert, streamed insert, LZ4 select, select with telemetry, insert with stalled writes, select and insert during which the server falls silent or keeps reporting progress once a second without ever ending the stream, select and insert (also with a silent server) on a client whose previous query ended with a server exception or ended well, handshake with prompt / late / no hello} x {explicit cancel() from a canceller thread placed by the scheduler at every point of every other thread, context deadline at fake 1 s and 5 s, explicit cancel of a context that also carries a 1 h deadline} x read timeout {3 s, 100 ms} x all schedules (incl. clock steps) up to the deviation bound. distinct_nontrivial = executions.")
 	quick := c.Quick()
 	bound := 1
 	if !quick {
@@ -345,6 +361,17 @@ func C10(c *vk.Ctx) {
 		for _, m := range farModes {
 			id := fmt.Sprintf("%s-silent/%s", s.name, m.name)
 			jobs = append(jobs, job{id, body10s(s, m, 0, false, 3), bound, true, "C10/" + s.name + "-silent"})
+		}
+	}
+	// the server keeps reporting progress (packets well inside the read timeout) and never
+	// ends the stream: only the cancellation can end the query
+	for _, s := range scs {
+		if s.name != "select" && s.name != "insert" {
+			continue
+		}
+		for _, m := range []cancelMode{{"cancel", 0, 0}, {"deadline5s", 5 * time.Second, 0}, {"cancel+deadline1h", 0, time.Hour}} {
+			id := fmt.Sprintf("%s-chatty/%s", s.name, m.name)
+			jobs = append(jobs, job{id, body10s(s, m, 0, false, -3), bound, true, "C10/" + s.name + "-chatty"})
 		}
 	}
 	jobs = append(jobs, job{"select/cancel+deadline1h/rt=0s", body10(scs[3], farModes[0], 0, false), bound, true, "C10/select"})
